@@ -92,7 +92,30 @@ func exercise(s *simdjson.Serializer, b []byte, dst *simdjson.ParsedJson) (accep
 var crashDir string
 
 // guarded runs exercise under a watchdog; a hang is reported and poisons the worker.
+// staleDst is a destination that already holds a tape (valid document with containers, strings and numbers): Deserialize
+// re-uses its slices without clearing them, so checks that read the tape before writing it see this content.
+func staleDst() *simdjson.ParsedJson {
+	pj, err := simdjson.Parse([]byte(`[{"a":[1,2,{"b":"c"}],"d":{}},[[],[3.5,"x"]],{"k":{"k":[null,true]}},7,"s",[[[[]]]]]`), nil)
+	if err != nil {
+		panic(err)
+	}
+	return pj
+}
+
 func guarded(s *simdjson.Serializer, b []byte) (accepted bool, problem string, hung bool) {
+	a, p, h := guardedDst(s, b, nil)
+	if p != "" || h {
+		return a, p, h
+	}
+	// the same bytes into a destination holding stale content
+	a2, p2, h2 := guardedDst(s, b, staleDst())
+	if p2 != "" {
+		p2 += " (destination reused: it held the tape of another document)"
+	}
+	return a || a2, p2, h2
+}
+
+func guardedDst(s *simdjson.Serializer, b []byte, dst *simdjson.ParsedJson) (accepted bool, problem string, hung bool) {
 	if crashDir != "" {
 		os.WriteFile(crashDir+"/current.bin", b, 0o644)
 	}
@@ -102,7 +125,7 @@ func guarded(s *simdjson.Serializer, b []byte) (accepted bool, problem string, h
 	}
 	ch := make(chan res, 1)
 	go func() {
-		a, p := exercise(s, b, nil)
+		a, p := exercise(s, b, dst)
 		ch <- res{a, p}
 	}()
 	select {
